@@ -9,6 +9,7 @@ import (
 	"net/http"
 	"sort"
 	"testing"
+	"time"
 )
 
 // Two relayed requests in flight together. The relay's transport (the process
@@ -83,6 +84,29 @@ func TestConcurrentRelay(t *testing.T) {
 		b, _ := io.ReadAll(res.Body)
 		res.Body.Close()
 		out <- string(b)
+	}
+	// is the gate in the relay's path at all? (it is when the relay uses the
+	// process default transport, as ipfsproxy.New does)
+	{
+		gate.arrived = make(chan string, 2)
+		gate.release = map[string]chan struct{}{"A": make(chan struct{})}
+		close(gate.release["A"])
+		probe := make(chan string, 1)
+		go send("A", alphabet[0], probe)
+		select {
+		case <-gate.arrived:
+			<-probe
+		case <-probe:
+			sec.Exhaustive = false
+			sec.CapHit = "the relay does not go through the process default transport: the gate is not in its path and the order of two requests in flight cannot be controlled"
+			R.NotExhaustive("two-relayed-requests-in-flight: " + sec.CapHit)
+			return
+		case <-time.After(40 * time.Second):
+			sec.Exhaustive = false
+			sec.CapHit = "the probe request was neither seen by the gate nor answered within 40s"
+			R.NotExhaustive("two-relayed-requests-in-flight: " + sec.CapHit)
+			return
+		}
 	}
 	n := 0
 	for i, a := range alphabet {
